@@ -242,9 +242,18 @@ class ParserModel:
                         self.phase_stores.append((f, n, "<originalPhase>"))
                     elif isinstance(v, ast.Name) and v.id == "new_phase" and f.name == "resetInsertionMode":
                         env = self.ce.local_env(f.node, f.module)
-                        nm = env.get("newModes")
+                        nm = None
+                        # the mapping used in `new_phase = self.phases[<mapping>[...]]` (a local or module-level constant)
+                        for a in ast.walk(f.node):
+                            if isinstance(a, ast.Assign) and any(isinstance(x, ast.Name) and x.id == "new_phase" for x in a.targets) \
+                                    and isinstance(a.value, ast.Subscript) and isinstance(a.value.slice, ast.Subscript) \
+                                    and isinstance(a.value.slice.value, ast.Name):
+                                try:
+                                    nm = self.ce.lookup(a.value.slice.value.id, f.module, env)
+                                except NotConstant:
+                                    nm = None
                         if not isinstance(nm, dict):
-                            raise AnalysisError("resetInsertionMode.newModes is not a constant dict")
+                            raise AnalysisError("resetInsertionMode: the mode mapping is not a constant dict")
                         self.new_modes = nm
                         keys |= set(nm.values())
                         for a in ast.walk(f.node):
